@@ -111,6 +111,26 @@ def load_known(prop):
   return [e for e in data.get('findings', []) if e.get('property') == prop and e.get('status', 'open') == 'open']
 
 
+def load_baseline(prop):
+  p = os.path.join(VERIF, 'baseline', '%s.json' % prop)
+  if not os.path.exists(p):
+    return None
+  with open(p) as f:
+    return json.load(f)
+
+
+def write_baseline(prop, all_obs, results):
+  """Record which obligations are discharged on the tree the baseline is taken from (run by hand, committed)."""
+  names = {}
+  for o in all_obs:
+    if o['status'] == 'unsat':
+      names[o['name']] = names.get(o['name'], 0) + 1
+  os.makedirs(os.path.join(VERIF, 'baseline'), exist_ok=True)
+  with open(os.path.join(VERIF, 'baseline', '%s.json' % prop), 'w') as f:
+    json.dump({'property': prop, 'obligations': names,
+               'units': {r['unit']: r.get('sha') for r in results}}, f, indent=1, sort_keys=True)
+
+
 def main(argv=None):
   ap = argparse.ArgumentParser()
   ap.add_argument('prop')
@@ -119,6 +139,7 @@ def main(argv=None):
   ap.add_argument('--unit')
   ap.add_argument('--jobs', type=int, default=16)
   ap.add_argument('-v', action='store_true')
+  ap.add_argument('--write-baseline', action='store_true')
   args = ap.parse_args(argv)
   prop = args.prop
   t0 = time.time()
@@ -157,6 +178,26 @@ def main(argv=None):
   unknown = [o for o in all_obs if o['status'] == 'unknown']
   discharged = [o for o in all_obs if o['status'] == 'unsat']
   bad_covers = [(r['unit'], c) for r in results for c in r['covers'] if c[1] == 'unsat']
+
+  # ---- regressions against the committed baseline: an obligation that is discharged on the unchanged tree and is no
+  # longer provable is reported as a violation without a failing input (the solver's verdict is attached)
+  baseline = load_baseline(prop)
+  regressed = []
+  if baseline is not None:
+    bad_names = {}
+    for o in unknown:
+      bad_names.setdefault(o['name'], []).append(o)
+    for name_, obs in bad_names.items():
+      if baseline.get('obligations', {}).get(name_, 0) > 0:
+        o = dict(obs[0])
+        o['status'] = 'sat'
+        o['regression'] = 'discharged on the baseline tree (%d path(s)); now the solvers answer unknown' % baseline['obligations'][name_]
+        o['info'] = dict(o['info'], msg=o['regression'])
+        regressed.append(o)
+    unknown = [o for o in unknown if o['name'] not in set(r['name'] for r in regressed)]
+    sat = sat + regressed
+  if args.write_baseline:
+    write_baseline(prop, all_obs, results)
 
   # ---- violations vs known findings
   from pyvc import replay
